@@ -1,5 +1,5 @@
 #![no_main]
-//! C01/C02/C03/C14/C12: fuzzer bytes drive the proptest strategies (pass-through RNG) to a
+//! C01/C02/C03/C14/C12: fuzzer bytes are decoded (harness/src/fuzzdecode.rs) into the same structured case the proptest strategies build: a
 //! (start, ops) case; every visited board is judged by the same oracles as the proptest runs.
 use libfuzzer_sys::fuzz_target;
 use verif_core::fuzzglue::{positions_from_bytes, report};
